@@ -600,6 +600,22 @@ def run_subset(case, mon):
         return
     if wellformed(kind, d, calls, sql, mon):
         return
+    # "every rendered statement": the statement a caller gets when it renders the same builder once more (an application renders
+    # for logging and again for execution) and the one a builder derived from the rendered one yields are statements too
+    try:
+        again = render(q, d)
+        mon.count("second_renders")
+        if again != sql and wellformed(kind, d, calls + ["<second render>"], again, mon):
+            return
+        q2 = getattr(q, "if_not_exists", None) if kind == "create" else None
+        if callable(q2):
+            derived = render(q2(), d)
+            mon.count("derived_builder_renders")
+            if wellformed(kind, d, calls + ["<derived after render>"], derived, mon):
+                return
+    except Exception as e:
+        mon.violation("%s:second-render-raises:%s" % (kind, type(e).__name__), "rendering the same builder once more raised %r (calls %s)" % (e, calls))
+        return
     if mon.evaluations % 397 == 1:
         mon.sample({"kind": kind, "dialect": d, "calls": calls, "sql": sql[:260]})
 
